@@ -1,6 +1,8 @@
 (* C16: workbook metadata — the model side.  Command `meta`, sub-commands (first argument):
      xlsx  D1904 PFX RPFX OMITPR TRUE PREXTRA JUNK RELS RJUNK SHEETS NAMES
              -> rels wire|workbook wire|model|spec|known|legal
+           RELS items Id:Target:Type; SHEETS items name:vis:kind:rid:tstyle:PART:perm:omit:pre:post:talt
+           (PART = part name relative to xl/, any folders / file name; xlsb: name:vis:kind:rid:PART:tabid:talt)
      xlsxr RELSWIRE WBWIRE                       M only, raw event lists
      xlsb  D1904 OMITPROP FLAGSHI PROPREST JUNK1 JUNK2 END TAIL RELS SHEETS XTIS NAMES
              -> rels wire|hex workbook.bin|model|spec|known|legal
@@ -86,8 +88,9 @@ let show_outcome (o : parsed outcome) : string =
 let opt_n = function Some v -> string_of_n v | None -> "-"
 let b01 b = if b then "1" else "0"
 
-let pairs (s : string) : (str * str) list =
-  List.map (fun it -> let f = fields it in (hx f.(0), hx f.(1))) (items s)
+(* relationships part: items Id:Target:Type *)
+let rels3 (s : string) : (str * (str * str)) list =
+  List.map (fun it -> let f = fields it in (hx f.(0), (hx f.(1), hx f.(2)))) (items s)
 let recs (s : string) : (BinNums.coq_N * BinNums.coq_N list) list =
   List.map (fun it -> let f = fields it in
              (n_of_string f.(0), if Array.length f > 1 then bytes_of_hex f.(1) else [])) (items s)
@@ -104,11 +107,12 @@ let run_xlsx = function
     let wb = { wb_sheets = List.map meta_of sh;
                wb_names = List.map (fun f -> (hx f.(0), hx f.(1))) nm;
                wb_1904 = bool_of d1904 } in
-    let c = { xc_pfx = hx pfx; xc_rpfx = hx rpfx; xc_rels = pairs rels;
+    let c = { xc_pfx = hx pfx; xc_rpfx = hx rpfx; xc_rels = rels3 rels;
               xc_sheets = List.map (fun f ->
-                  { xs_rid = hx f.(3); xs_tstyle = n_of_string f.(4); xs_file = hx f.(5);
+                  { xs_rid = hx f.(3); xs_tstyle = n_of_string f.(4); xs_part = hx f.(5);
                     xs_perm = n_of_string f.(6); xs_omit = bool_of f.(7);
-                    xs_pre = parse_attrs f.(8); xs_post = parse_attrs f.(9) }) sh;
+                    xs_pre = parse_attrs f.(8); xs_post = parse_attrs f.(9);
+                    xs_talt = bool_of f.(10) }) sh;
               xc_names = List.map (fun f ->
                   { xn_cuts = (if f.(2) = "" || f.(2) = "-" then []
                                else List.map (fun x -> nat_of_int (int_of_string x))
@@ -133,9 +137,10 @@ let run_xlsb = function
                wb_names = List.map (fun f ->
                    (hx f.(0), Cmd_ptg.parse_ast (Array.of_list (String.split_on_char ' ' f.(1))))) nm;
                wb_1904 = bool_of d1904 } in
-    let c = { bc_rels = pairs rels;
+    let c = { bc_rels = rels3 rels;
               bc_sheets = List.map (fun f ->
-                  { bs_rid = hx f.(3); bs_file = hx f.(4); bs_tabid = n_of_string f.(5) }) sh;
+                  { bs_rid = hx f.(3); bs_part = hx f.(4); bs_tabid = n_of_string f.(5);
+                    bs_talt = bool_of f.(6) }) sh;
               bc_junk1 = recs junk1; bc_junk2 = recs junk2;
               bc_omit_prop = bool_of omitprop; bc_flags_hi = n_of_string flagshi;
               bc_prop_rest = bytes_of_hex proprest; bc_xtis = triples xtis;
